@@ -16,8 +16,12 @@ func newGen(seed int64) *gen { return &gen{rng: rand.New(rand.NewSource(seed))} 
 // q makes an ordinary query; ID, RD and the client's OPT record are noise.
 func (g *gen) q(name []byte, t, c uint16, f int) qspec {
 	r := g.rng.Uint32()
+	sh := uint8(0) // half of the queries: OPT alone; the rest: another layout of Q()'s additional section
+	if r>>3&1 != 0 {
+		sh = uint8(1 + (r>>4)%uint32(len(extraShapes)-1))
+	}
 	return qspec{Name: name, Type: t, Class: c, AD: f&1 != 0, CD: f&2 != 0, QDO: f&4 != 0,
-		RD: r&1 != 0, ID: uint16(r >> 16), ClientOPT: uint8((r >> 1) % 3)}
+		RD: r&1 != 0, ID: uint16(r >> 16), ClientOPT: uint8((r >> 1) % 3), Shape: sh}
 }
 
 type cell struct {
@@ -696,6 +700,25 @@ func genTextbook(g *gen) []qspec {
 	return out
 }
 
+// every AD/CD/DO combination under every layout of Q()'s additional section, for
+// many questions: the flags must separate entries wherever the OPT stands (same
+// flags under different layouts are the same question and may share)
+func genFlagsExtraShapes(g *gen) []qspec {
+	var out []qspec
+	for k := 0; k < 2048; k++ {
+		n := g.baseName()
+		t, c := g.randType(), g.randClass()
+		for sh := range extraShapes {
+			for f := 0; f < 8; f++ {
+				s := g.q(n, t, c, f)
+				s.Shape = uint8(sh)
+				out = append(out, s)
+			}
+		}
+	}
+	return out
+}
+
 // ------------------------------------------------------------------ the list
 
 func buildFamilies(thorough bool, seed int64) []*family {
@@ -732,6 +755,7 @@ func buildFamilies(thorough bool, seed int64) []*family {
 	add("bypass/a", genBypass)
 	add("bypass/b", genBypass)
 	add("noise-sharing", genNoiseSharing)
+	add("flags-x-extra-section-layouts", genFlagsExtraShapes)
 	weight = 2
 	add("name-x-type-x-class-grid", genNameTypeClassGrid)
 	weight = 1
@@ -802,6 +826,7 @@ func buildFamilies(thorough bool, seed int64) []*family {
 		}
 		add(fmt.Sprintf("bypass#%d", k), genBypass)
 		add(fmt.Sprintf("noise-sharing#%d", k), genNoiseSharing)
+		add(fmt.Sprintf("flags-x-extra-section-layouts#%d", k), genFlagsExtraShapes)
 	}
 	return fams
 }
